@@ -853,6 +853,34 @@ pub unsafe extern "C" fn getrandom(buf: *mut c_void, len: size_t, flags: c_uint)
     len as ssize_t
 }
 
+/// Process and thread ids are a source of nondeterminism too (temporary file names are
+/// commonly built from them): the simulated process always has the same ids.
+pub const SIM_PID: libc::pid_t = 4242;
+
+#[no_mangle]
+pub unsafe extern "C" fn getpid() -> libc::pid_t {
+    match active_tid() {
+        Some(_) => SIM_PID,
+        None => libc::syscall(libc::SYS_getpid) as libc::pid_t,
+    }
+}
+
+#[no_mangle]
+pub unsafe extern "C" fn getppid() -> libc::pid_t {
+    match active_tid() {
+        Some(_) => SIM_PID - 1,
+        None => libc::syscall(libc::SYS_getppid) as libc::pid_t,
+    }
+}
+
+#[no_mangle]
+pub unsafe extern "C" fn gettid() -> libc::pid_t {
+    match active_tid() {
+        Some(t) => SIM_PID + t as libc::pid_t,
+        None => libc::syscall(libc::SYS_gettid) as libc::pid_t,
+    }
+}
+
 #[no_mangle]
 pub unsafe extern "C" fn clock_gettime(clk: libc::clockid_t, ts: *mut libc::timespec) -> c_int {
     let tid = match active_tid() {
